@@ -468,4 +468,81 @@ def mateOps (n : Nat) (sops : List String) : G (List String) := do
     | none => pure ()
   return out
 
+/-- material for the retro-mate generator: every pair of "at most one minor piece each" and a few
+    heavier sets — mates that need self-blocks and rim geometry, rare among random placements -/
+def retroSets : List (List Piece) := [
+  [⟨.white, .knight⟩, ⟨.black, .knight⟩], [⟨.white, .knight⟩, ⟨.black, .bishop⟩],
+  [⟨.white, .bishop⟩, ⟨.black, .knight⟩], [⟨.white, .bishop⟩, ⟨.black, .bishop⟩],
+  [⟨.white, .knight⟩, ⟨.black, .pawn⟩], [⟨.white, .bishop⟩, ⟨.black, .pawn⟩],
+  [⟨.white, .knight⟩, ⟨.white, .knight⟩], [⟨.white, .bishop⟩, ⟨.white, .knight⟩], [⟨.white, .bishop⟩, ⟨.white, .bishop⟩],
+  [⟨.white, .knight⟩, ⟨.black, .rook⟩], [⟨.white, .bishop⟩, ⟨.black, .rook⟩, ⟨.black, .pawn⟩],
+  [⟨.white, .rook⟩, ⟨.black, .bishop⟩], [⟨.white, .queen⟩, ⟨.black, .knight⟩], [⟨.white, .pawn⟩, ⟨.black, .knight⟩],
+  [⟨.white, .rook⟩], [⟨.white, .queen⟩]]
+
+def near (s : Spec.Sq) (dist : Nat) : G Spec.Sq := do
+  let df ← below (2 * dist + 1)
+  let dr ← below (2 * dist + 1)
+  let f : Int := (s.file : Int) + df - dist
+  let r : Int := (s.rank : Int) + dr - dist
+  pure ⟨(max 0 (min 7 f)).toNat, (max 0 (min 7 r)).toNat⟩
+
+/-- a position in which the side to move is checkmated, built by biased placement (mated king on
+    the rim or in a corner, its own pieces next to it, the mating king close) -/
+def matedPosition (mat : List Piece) : Nat → G (Option Spec.Position)
+  | 0 => return none
+  | tries + 1 => do
+    let swap ← chance 1 2
+    let col (c : Color) : Color := if swap then c.opp else c
+    let corner ← chance 1 2
+    let bk : Spec.Sq ← if corner then do
+        let k ← below 4
+        pure (match k with | 0 => ⟨0, 0⟩ | 1 => ⟨7, 0⟩ | 2 => ⟨0, 7⟩ | _ => ⟨7, 7⟩)
+      else do
+        let f ← below 8
+        let edge ← below 4
+        pure (match edge with | 0 => ⟨f, 0⟩ | 1 => ⟨f, 7⟩ | 2 => ⟨0, f⟩ | _ => ⟨7, f⟩)
+    let wk ← near bk 2
+    if wk == bk then return ← matedPosition mat tries
+    let mut P : Spec.Position :=
+      { cells := Array.replicate 64 none, side := col .black, wks := false, wqs := false, bks := false, bqs := false, ep := none }
+    P := (P.put wk (some ⟨col .white, .king⟩)).put bk (some ⟨col .black, .king⟩)
+    for pc in mat do
+      let s ← if pc.color == .black then near bk 1 else (do
+        if ← chance 1 2 then near bk 3 else pure ⟨← below 8, ← below 8⟩)
+      if (P.at s).isNone && !(pc.kind == .pawn && (s.rank == 0 || s.rank == 7)) then
+        P := P.put s (some ⟨col pc.color, pc.kind⟩)
+    if !Spec.inCheck P P.side then return ← matedPosition mat tries
+    if !Spec.LegalPosition P then return ← matedPosition mat tries
+    if (Spec.legalMoves P).isEmpty then return some P else matedPosition mat tries
+
+/-- take back the mating move: every position from which a quiet, non-promoting move of a piece of
+    the mating side produces exactly the mated position -/
+def retractions (P : Spec.Position) : List Spec.Position :=
+  let mover := P.side.opp
+  Spec.allSquares.flatMap fun s =>
+    match P.at s with
+    | some pc =>
+      if pc.color == mover then
+        Spec.allSquares.filterMap fun s0 =>
+          if (P.at s0).isSome then none
+          else
+            let P0 : Spec.Position := { ((P.put s none).put s0 (some pc)) with side := mover }
+            let m : Spec.Move := ⟨s0, s, none⟩
+            if Spec.LegalPosition P0 && Spec.legal P0 m && (Spec.apply P0 m).cells == P.cells then some P0 else none
+      else []
+    | none => []
+
+/-- positions with a mate in one obtained by retraction from generated mates -/
+def retroMateOps (n : Nat) (sops : List String) : G (List String) := do
+  let mut out : List String := []
+  for i in [0:n] do
+    match ← matedPosition (retroSets.getD (i % retroSets.length) []) 3000 with
+    | some P =>
+      let rs := retractions P
+      if !rs.isEmpty then
+        let P0 ← pick rs
+        out := out ++ [s!"pos position fen {Spec.toFen P0 0 1}"] ++ sops
+    | none => pure ()
+  return out
+
 def runG {α : Type} (seed : Nat) (g : G α) : α := (g.run ⟨UInt64.ofNat seed⟩).1
